@@ -266,3 +266,154 @@ func c14RootReplace(c *Ctx) {
 		}
 	}
 }
+
+// c14Positions: one cursor operation at every node position of every template fragment. The target is
+// found through Apply itself; the effect is judged by reflection over struct fields: the operation
+// changed exactly the addressed field or list slot and nothing else, whatever the node type.
+func c14Positions(c *Ctx) {
+	src, err := templateSrc()
+	if err != nil {
+		c.Infra(err.Error())
+		return
+	}
+	minis, err := miniFiles(src)
+	if err != nil {
+		c.Infra(err.Error())
+		return
+	}
+	type job struct {
+		mi, pi int
+		op     string
+	}
+	var jobs []job
+	for mi, m := range minis {
+		var ps []nodePos
+		positionsOf(m, &ps, map[dst.Node]bool{})
+		for pi, p := range ps {
+			jobs = append(jobs, job{mi, pi, "replace"})
+			if p.li >= 0 {
+				jobs = append(jobs, job{mi, pi, "delete"}, job{mi, pi, "insert-before"}, job{mi, pi, "insert-after"})
+			}
+		}
+	}
+	snapshot := func(f *dst.File) map[string]dst.Node {
+		var ps []nodePos
+		positionsOf(f, &ps, map[dst.Node]bool{})
+		out := map[string]dst.Node{}
+		for _, p := range ps {
+			out[fmt.Sprintf("%p.%s[%d]", p.holder.Addr().Interface(), p.holder.Type().Field(p.fi).Name, p.li)] = p.get().Interface().(dst.Node)
+		}
+		return out
+	}
+	parallel(len(jobs), func(i int) {
+		j := jobs[i]
+		ms, _ := miniFiles(src)
+		f := ms[j.mi]
+		var ps []nodePos
+		positionsOf(f, &ps, map[dst.Node]bool{})
+		if j.pi >= len(ps) {
+			return
+		}
+		p := ps[j.pi]
+		target := p.get().Interface().(dst.Node)
+		holder := p.holder.Addr().Interface().(dst.Node)
+		field := p.holder.Type().Field(p.fi).Name
+		key := fmt.Sprintf("position|fragment-%d|%s.%s[%d]|%s", j.mi, p.holder.Type().Name(), field, p.li, j.op)
+		c.Eval(key, true)
+		var before []dst.Node
+		if p.li >= 0 {
+			lv := p.holder.Field(p.fi)
+			for k := 0; k < lv.Len(); k++ {
+				before = append(before, lv.Index(k).Interface().(dst.Node))
+			}
+		}
+		snapBefore := snapshot(f)
+		fresh := dst.Clone(target)
+		located := ""
+		done := false
+		msg := guard(func() {
+			dstutil.Apply(f, func(cu *dstutil.Cursor) bool {
+				if done || cu.Node() != target {
+					return true
+				}
+				done = true
+				if cu.Parent() != holder || cu.Name() != field || cu.Index() != p.li {
+					located = fmt.Sprintf("cursor says parent %T name %s index %d", cu.Parent(), cu.Name(), cu.Index())
+				}
+				switch j.op {
+				case "replace":
+					cu.Replace(fresh)
+				case "delete":
+					cu.Delete()
+				case "insert-before":
+					cu.InsertBefore(fresh)
+				case "insert-after":
+					cu.InsertAfter(fresh)
+				}
+				return false
+			}, nil)
+		})
+		fail := func(what string) {
+			c.Fail(Finding{Sig: "apply-position-effect", Input: key, What: key + ": " + what, Replay: obj{"kind": "none"}})
+		}
+		if msg != "" {
+			fail(msg)
+			return
+		}
+		if !done {
+			fail("Apply never reached the node at this position")
+			return
+		}
+		if located != "" {
+			fail(located + fmt.Sprintf(", reflection says parent %T name %s index %d", holder, field, p.li))
+			return
+		}
+		// expected contents of the addressed field
+		if p.li < 0 {
+			if got := p.holder.Field(p.fi).Interface(); got != interface{}(fresh) {
+				fail(fmt.Sprintf("after Replace the field holds %T %p, not the replacement", got, got))
+				return
+			}
+		} else {
+			var want []dst.Node
+			for k, n := range before {
+				switch {
+				case k != p.li:
+					want = append(want, n)
+				case j.op == "replace":
+					want = append(want, fresh)
+				case j.op == "delete":
+				case j.op == "insert-before":
+					want = append(want, fresh, n)
+				case j.op == "insert-after":
+					want = append(want, n, fresh)
+				}
+			}
+			lv := p.holder.Field(p.fi)
+			if lv.Len() != len(want) {
+				fail(fmt.Sprintf("the list has %d elements, expected %d", lv.Len(), len(want)))
+				return
+			}
+			for k := range want {
+				if lv.Index(k).Interface().(dst.Node) != want[k] {
+					fail(fmt.Sprintf("element %d of the list is not the expected node", k))
+					return
+				}
+			}
+		}
+		// nothing else changed: every other position still holds the node it held
+		snapAfter := snapshot(f)
+		skipPrefix := fmt.Sprintf("%p.%s[", holder, field)
+		for k, n := range snapBefore {
+			if strings.HasPrefix(k, skipPrefix) {
+				continue
+			}
+			// positions below the removed / replaced node are gone with it
+			if m, ok := snapAfter[k]; ok && m != n {
+				fail("another position changed: " + k)
+				return
+			}
+		}
+	})
+	c.Set("apply_position_operations", len(jobs))
+}
